@@ -602,7 +602,110 @@ def r5_instantiation_naming(ctx):
         ctx.note('no submodule scope creation under a submodule traversal found in des::net::ndl (rule vacuous on this tree)')
 
 
+def r6_links_become_channels(ctx):
+    """a described connection carries its link: the channel handed to Gate::connect exists exactly when the description has a link, built
+    from that link's parameters (no further condition on the parameter values)"""
+    ctx.set_rule('C18.R6')
+    P = ctx.P
+    fs = [g for g in P.fn_list if g.key.startswith('des::net::ndl::') and g.kind in ('fn', 'assocfn', 'closure')]
+    sites = [(f, s) for f in fs for s in f.calls() if s.name == 'des::net::gate::Gate::connect' and len(s.args) == 3]
+    if not ctx.floor('Gate::connect in the NDL instantiation', len(sites), 1):
+        return
+    PASS = ('as_ref', 'map', 'cloned', 'clone', 'as_deref', 'copied', 'deref', 'borrow', 'into', 'from')
+    for f, s in sites:
+        ctx.touch(f)
+        t = f.expr_operand(s.args[2], s.b, 'T')
+        from_link = any(x[0] == 'field' and x[2] == 'link' for x in walk(t))
+        maps = [x for x in walk(t) if x[0] == 'call' and x[1].endswith('Option::map') and len(x[2]) == 2]
+        built = False
+        for m in maps:
+            cl = peel(m[2][1])
+            g = P.fns.get(cl[1][len('closure:'):]) if cl[0] == 'agg' and str(cl[1]).startswith('closure:') else None
+            for _, rt in (ret_trees(g) if g else []):
+                # Channel::new(<metrics converted from the closure's own parameter, the link>)
+                if any(x[0] == 'call' and x[1].endswith('Channel::new') and x[2] and any(y[0] == 'arg' and y[1] == 2 for y in walk(x[2][0])) for x in walk(rt)):
+                    built = True
+            if cl[0] == 'fnitem' and cl[1].endswith('Channel::new'):
+                built = True    # `.map(ChannelMetrics::from).map(Channel::new)`
+        if not maps:
+            # match form: `match link { Some(l) => Some(Channel::new(..l..)), None => None }`
+            tp = peel(t)
+            alts = list(tp[1]) if tp[0] == 'phi' else [tp]
+            def some_channel(x):
+                x = peel(x)
+                return x[0] == 'agg' and str(x[1]).endswith('Option::Some') and any(y[0] == 'call' and y[1].endswith('Channel::new') and y[2] and
+                                                                                     any(z[0] == 'field' and z[2] == 'link' for z in walk(y[2][0])) for y in walk(x))
+            def none(x):
+                x = peel(x)
+                return x[0] == 'agg' and str(x[1]).endswith('Option::None')
+            if len(alts) >= 2 and all(some_channel(x) or none(x) for x in alts) and any(some_channel(x) for x in alts) and any(none(x) for x in alts):
+                built = from_link = True
+                for c in f.calls():
+                    if c.name.endswith('Channel::new'):
+                        ga = [a for _, a in f.guard_atoms(c.b)]
+                        lk = [a for a in ga if (option_state(a) or ('', None))[0] == 'some' and any(y[0] == 'field' and y[2] == 'link' for y in walk(option_state(a)[1]))]
+                        if not lk:
+                            built = False
+        other = [x[1] for x in walk(t) if x[0] == 'call' and 'option::Option' in x[1] and x[1].split('::')[-1] not in PASS]
+        def on_params(a):
+            return a and a[0] in ('cmp', 'bool') and any(y[0] == 'field' and y[2] in ('latency', 'jitter', 'bitrate') for y in walk(a))
+        conds = [a for _, a in f.guard_atoms(s.b) if on_params(a)] + [a for c in f.calls() if c.name.endswith('Channel::new') for _, a in f.guard_atoms(c.b) if on_params(a)]
+        ctx.check(from_link and built and not other and not conds, 'link-iff-channel',
+                  'every described link becomes a channel with its parameters (Some link => Some(Channel::new(ChannelMetrics::from(link))), None => no channel), whatever the parameter values',
+                  s.where(), {'from_link': from_link, 'channel_built': built, 'other_option_ops': other, 'conditions': [show_atom(a) for a in conds]})
+
+
+def r7_dependency_order(ctx):
+    """the elaboration order is what the 'unreachable: parse order' look-ups of R1 rely on: a module is scheduled only when EVERY symbol it
+    depends on has been provided - the readiness predicate accepts a dependency on no other ground than membership in the provider set
+    (a module that depends on itself is never ready and is reported as unresolvable)"""
+    ctx.set_rule('C18.R7')
+    P = ctx.P
+    f = ctx.anchor('des_net_utils::ndl::transform')
+    if not f:
+        return
+    preds = []
+    for g in _closures_rec_of(P, f):
+        if [s for s in g.calls() if s.name.endswith(('HashSet::contains', 'BTreeSet::contains'))]:
+            preds.append(g)
+    if not ctx.floor('readiness predicates (membership tests of the provider set) in transform', len(preds), 1):
+        return
+    for g in preds:
+        ctx.touch(g)
+        member = [s for s in g.calls() if s.name.endswith(('HashSet::contains', 'BTreeSet::contains'))]
+        for path, outcome, decs in fn_paths(ctx, g):
+            if outcome != 'return':
+                continue
+            r = path_ret_resolved(g, path)
+            r = peel(r) if r is not None else ('unknown',)
+            outs = dict((site.b, res) for site, res in call_outcomes(g, path, decs, member[0].name))
+            if r == ('int', 0):
+                continue
+            is_member = r[0] == 'call' and r[1] == member[0].name
+            proven = any(v is True for v in outs.values())
+            ctx.check(is_member or proven, 'ready-only-if-provided', 'a dependency counts as satisfied only if it is in the provider set', g.where_path(path), show(r)[:120])
+
+
+def _closures_rec_of(P, f):
+    out = []
+    todo = [f]
+    while todo:
+        h = todo.pop()
+        for g in P.closures_of(h):
+            if g not in out:
+                out.append(g); todo.append(g)
+        # closures of new helpers that were spliced into h
+        for par, helper in getattr(P, 'inlined', []):
+            if par == h.key:
+                for g in P.fn_list:
+                    if g.kind == 'closure' and g.parent == helper and g not in out:
+                        out.append(g); todo.append(g)
+    return out
+
+
 def run(ctx):
+    r6_links_become_channels(ctx)
+    r7_dependency_order(ctx)
     r1_panic_inventory(ctx)
     r2_cardinality_table(ctx)
     r3_substitution(ctx)
